@@ -79,6 +79,7 @@ def generate(rng, prop, tier):
                      'perm': rng.randrange(1 << 30) if rng.random() < 0.5 else None,
                      'jump': rng.choice([0.0, 0.0, 1e5, -1e5])})
     sc['plan'] = plan
+    sc['share_info'] = rng.random() < 0.4        # one progress record (info dict) reused across all segments / restarts
     if kind == 'contract':
         sc['clause'] = rng.choice(['missing', 'skip', 'adaptive', 'stop_e', 'stop_e_vld'])
         if sc['clause'] == 'adaptive':
@@ -253,11 +254,11 @@ class Obs:
     pass
 
 
-def run_job(sc, I, y, w, Y0, nswp, cb_at=None, jump=0.0, e=None, extra=None, keep=True):
+def run_job(sc, I, y, w, Y0, nswp, cb_at=None, jump=0.0, e=None, extra=None, keep=True, info=None):
     o = Obs()
     o.events = []
     CLOCK.reset()
-    o.info = {}
+    o.info = {} if info is None else info
     o.exc = None
     o.abort = None
     o.Y = None
@@ -472,6 +473,9 @@ def execute_plan(sc):
     Ic, yc, wc = I, y, w
     done = 0
     seg_ok = True
+    shared = {} if sc.get('share_info') else None
+    if shared is not None and len(plan) > 1:
+        Fk('info_dict_reused_across_restarts')
     for si, seg in enumerate(plan):
         if seg['perm'] is not None and si > 0:
             pm = gen(seg['perm']).permutation(len(y))
@@ -481,12 +485,12 @@ def execute_plan(sc):
         if si > 0:
             Fk('restart_from_result')
         if seg['how'] == 'cb':
-            o = run_job(sc, Ic, yc, wc, cur, seg['a'] + 3, cb_at=seg['a'], jump=seg['jump'])
+            o = run_job(sc, Ic, yc, wc, cur, seg['a'] + 3, cb_at=seg['a'], jump=seg['jump'], info=shared)
             Fk('callback_cancel')
             P('cancelled_by_cb')
             exp_stop = 'cb'
         else:
-            o = run_job(sc, Ic, yc, wc, cur, seg['a'], jump=seg['jump'])
+            o = run_job(sc, Ic, yc, wc, cur, seg['a'], jump=seg['jump'], info=shared)
             exp_stop = 'nswp'
         if seg['jump']:
             Fk('clock_jump')
@@ -674,7 +678,7 @@ def shrink(sc, v):
             s = cp(); s['plan'][i]['perm'] = None; yield s
         if seg['jump']:
             s = cp(); s['plan'][i]['jump'] = 0.0; yield s
-    for key, val in (('w', False), ('dup', 0), ('log', False), ('ydist', 'normal'), ('basis', 'cheb')):
+    for key, val in (('w', False), ('dup', 0), ('log', False), ('ydist', 'normal'), ('basis', 'cheb'), ('share_info', False)):
         if sc.get(key) != val:
             s = cp(); s[key] = val; yield s
     if sc['m'] > 1:
